@@ -266,7 +266,9 @@ func (g *rig) val3(proc int, parity int32) *tat {
 	return &tat{DefaultString: g.tag(proc), DefaultInt32: parity}
 }
 
-func opUpdate(id string, v *tat, o sm.Opts) sm.Op { return sm.Op{Kind: sm.Update, ID: id, Val: v, Opts: o} }
+func opUpdate(id string, v *tat, o sm.Opts) sm.Op {
+	return sm.Op{Kind: sm.Update, ID: id, Val: v, Opts: o}
+}
 
 var allowedLoserCodes = map[codes.Code]bool{
 	codes.OK: true, codes.Aborted: true, codes.AlreadyExists: true, codes.FailedPrecondition: true,
@@ -305,7 +307,9 @@ func victims() []victimSpec {
 	del := []string{"col.delete.afterRead", "col.delete.beforeLock"}
 	return []victimSpec{
 		{"update", gau, func(g *rig, cur *tat) sm.Op { return opUpdate("a", g.val3(0, 1), sm.Opts{}) }},
-		{"update-create", gau, func(g *rig, cur *tat) sm.Op { return opUpdate("a", g.val3(0, 1), sm.Opts{CreateIfAbsent: true, CreatedCB: true}) }},
+		{"update-create", gau, func(g *rig, cur *tat) sm.Op {
+			return opUpdate("a", g.val3(0, 1), sm.Opts{CreateIfAbsent: true, CreatedCB: true})
+		}},
 		{"update-cas", gau, func(g *rig, cur *tat) sm.Op {
 			o := sm.Opts{}
 			if cur != nil {
@@ -328,7 +332,9 @@ func victims() []victimSpec {
 			return sm.Op{Kind: sm.Add, ID: "", Val: g.val3(0, 1), Opts: sm.Opts{GenID: true, IDCallback: true}}
 		}},
 		{"delete", del, func(g *rig, cur *tat) sm.Op { return sm.Op{Kind: sm.Delete, ID: "a"} }},
-		{"delete-allowmissing", del, func(g *rig, cur *tat) sm.Op { return sm.Op{Kind: sm.Delete, ID: "a", Opts: sm.Opts{AllowMissing: true}} }},
+		{"delete-allowmissing", del, func(g *rig, cur *tat) sm.Op {
+			return sm.Op{Kind: sm.Delete, ID: "a", Opts: sm.Opts{AllowMissing: true}}
+		}},
 		{"delete-expect", del, func(g *rig, cur *tat) sm.Op {
 			o := sm.Opts{}
 			if cur != nil {
@@ -349,14 +355,18 @@ func interferers() []interfererSpec {
 	}
 	return []interfererSpec{
 		{"none", func(g *rig, cur *tat) []sm.Op { return nil }},
-		{"update", func(g *rig, cur *tat) []sm.Op { return []sm.Op{opUpdate("a", g.val3(1, 0), sm.Opts{CreateIfAbsent: true})} }},
+		{"update", func(g *rig, cur *tat) []sm.Op {
+			return []sm.Op{opUpdate("a", g.val3(1, 0), sm.Opts{CreateIfAbsent: true})}
+		}},
 		{"update-aba", func(g *rig, cur *tat) []sm.Op {
 			return []sm.Op{opUpdate("a", g.val3(1, 0), sm.Opts{CreateIfAbsent: true}), opUpdate("a", same(cur), sm.Opts{})}
 		}},
 		{"delta", func(g *rig, cur *tat) []sm.Op {
 			return []sm.Op{opUpdate("a", &tat{DefaultInt64: 3}, sm.Opts{Before: true, HasUpdateMask: true, UpdateMask: []string{"default_int64"}, CreateIfAbsent: true})}
 		}},
-		{"delete", func(g *rig, cur *tat) []sm.Op { return []sm.Op{{Kind: sm.Delete, ID: "a", Opts: sm.Opts{AllowMissing: true}}} }},
+		{"delete", func(g *rig, cur *tat) []sm.Op {
+			return []sm.Op{{Kind: sm.Delete, ID: "a", Opts: sm.Opts{AllowMissing: true}}}
+		}},
 		{"delete-readd-same", func(g *rig, cur *tat) []sm.Op {
 			return []sm.Op{{Kind: sm.Delete, ID: "a", Opts: sm.Opts{AllowMissing: true}}, {Kind: sm.Add, ID: "a", Val: same(cur)}}
 		}},
@@ -488,7 +498,9 @@ func forcedPublish(r *vk.Run) {
 			window, kind = "value.set.beforePublish", sm.Set
 		}
 		ws := []wr{
-			{"delta", func(g *rig, proc int) sm.Op { return sm.Op{Kind: kind, ID: "a", Val: &tat{DefaultInt64: int64(3 + 4*proc)}, Opts: delta} }},
+			{"delta", func(g *rig, proc int) sm.Op {
+				return sm.Op{Kind: kind, ID: "a", Val: &tat{DefaultInt64: int64(3 + 4*proc)}, Opts: delta}
+			}},
 			{"replace", func(g *rig, proc int) sm.Op { return sm.Op{Kind: kind, ID: "a", Val: g.val3(proc, 1)} }},
 		}
 		for _, a := range ws {
